@@ -130,6 +130,10 @@ var frags = []*Frag{
 		{ID: "{P}a", Body: "    runs-on: ubuntu-latest\n    outputs:\n      o: x\n    steps:\n      - run: echo\n"},
 		{ID: "{P}b", Body: "    needs: {P}a\n    runs-on: ubuntu-latest\n    steps:\n      - run: echo ${{ needs.{P}a.outputs.nope }} ${{ needs.{P}zz.result }}\n"},
 	}},
+	{Name: "job-level-refs-to-other-jobs-steps", Jobs: []FragJob{
+		{ID: "{P}m1", Body: "    runs-on: ubuntu-latest\n    steps:\n      - id: meta\n        run: echo \"v=1\" >> \"$GITHUB_OUTPUT\"\n"},
+		{ID: "{P}m2", Body: "    runs-on: ubuntu-latest\n    env:\n      FROM_OTHER_JOB: ${{ steps.meta.outputs.v }}\n      FROM_NEEDS: ${{ needs.{P}m1.outputs.nope }}\n    steps:\n      - run: echo\n"},
+	}},
 	{Name: "matrix-ok", Clean: true, Jobs: []FragJob{{ID: "{P}mx", Body: "    strategy:\n      matrix:\n        os: [ubuntu-latest, macos-latest]\n        node: [18, 20]\n        include:\n          - os: ubuntu-latest\n            extra: yes\n    runs-on: ${{ matrix.os }}\n    steps:\n      - run: echo ${{ matrix.node }} ${{ matrix.extra }}\n"}}},
 	{Name: "matrix-undefined", Jobs: []FragJob{{ID: "{P}mxu", Body: "    strategy:\n      matrix:\n        os: [ubuntu-latest]\n        targets:\n          - os: a\n            arch: b\n          - os: c\n            arch: d\n    runs-on: ${{ matrix.os }}\n    steps:\n      - run: echo ${{ matrix.nope }}\n      - run: echo ${{ join(matrix.targets.*.os, ',') }}\n      - run: echo ${{ join(matrix.targets.*.arch, ',') }}\n"}}},
 	{Name: "matrix-objfilter", Jobs: []FragJob{{ID: "{P}mof", Body: "    strategy:\n      matrix:\n        include:\n          - name: first\n            targets: [{os: linux, arch: x64}, {os: darwin, arch: arm64}]\n            nums: [1, 2]\n    runs-on: ubuntu-latest\n    steps:\n      - run: echo \"${{ join(matrix.targets.*.os, ',') }}\"\n      - run: echo \"${{ join(matrix.targets.*.arch, ',') }}\"\n      - run: echo \"${{ matrix.targets.*.nope }} ${{ matrix.nums.*.x }}\"\n      - run: echo \"${{ matrix.targets[0].os }} ${{ toJSON(matrix.targets) }}\"\n"}}},
